@@ -592,7 +592,7 @@ def der_gcc_cases(tier, rng):
         n = rng.choice([0, 1, 5, 15, 16, 17, 20])
         name = bytes(rng.choice(b"abcXYZ019-_ ") for _ in range(n))
         w, h, proto, lay = rng.randrange(65536), rng.randrange(65536), rng.choice([0, 1, 2, 3, 0xffffffff]), rng.choice(["us", "fr"])
-        n16 = b"".join(bytes([c, 0]) for c in (name[:16] if n >= 16 else name + bytes(16 - n)))
+        n16 = b"".join(bytes([c, 0]) for c in (name[:15] + bytes(16 - min(n, 15))))   # MS-RDPBCGR 2.2.1.3.2: at most 15 characters + null terminator
         ref = (0x80004).to_bytes(4, "little") + w.to_bytes(2, "little") + h.to_bytes(2, "little") + b"\x01\xca\x03\xaa" + \
               (0x409 if lay == "us" else 0x40c).to_bytes(4, "little") + (3790).to_bytes(4, "little") + n16 + (4).to_bytes(4, "little") + bytes(4) + \
               (12).to_bytes(4, "little") + bytes(64) + b"\x01\xca\x01\x00" + bytes(4) + b"\x18\x00\x0a\x00\x01\x00" + bytes(64) + b"\x00\x00" + proto.to_bytes(4, "little")
